@@ -111,6 +111,34 @@ pub fn cli_hostile(ctx: &mut Ctx) {
     ctx.rule = "archives: {hostile CRC-valid chunk streams; valid archives (all writer kinds, codecs, ciphers) with 1-3 chunk payloads replaced by hostile values for their type, or chunks duplicated / removed / swapped / foreign chunks inserted; truncations; raw bit flips; hand-framed entries with edge metadata (empty, control-character, 300-byte, 400-deep and duplicate names, extreme times, ids, xattr names, ACE bodies, link targets); multipart pairs with wrong numbers / missing parts} \
                 x commands {list (plain, -l, --format jsonl, --format tree, --solid), extract (plain, keep flags), experimental chunk list, split, concat, strip, experimental chmod / chown / xattr get / xattr set / acl get / acl set / delete / migrate / update, append} x {no password, --password}; \
                 oracle: exit status is neither a panic (101) nor a signal, and the command ends within 20 s".into();
+    // an archive with many entries (nothing hostile about it, but counts beyond any internal queue or batch size): every entry
+    // comes out, the command ends
+    {
+        use libpna::{Archive, EntryBuilder, EntryName, WriteOptions};
+        use std::io::Write;
+        let sbx = Sbx::new("hostile-many", 0);
+        let count = 2600usize;
+        let mut a = Archive::write_header(Vec::new()).unwrap();
+        for i in 0..count {
+            let e = if i % 7 == 3 { EntryBuilder::new_dir(EntryName::from(format!("m/d{i:04}").as_str())).build().unwrap() } else {
+                let mut b = EntryBuilder::new_file(EntryName::from(format!("m/f{i:04}").as_str()), WriteOptions::store()).unwrap();
+                b.write_all(&[(i % 251) as u8; 3]).unwrap();
+                b.build().unwrap()
+            };
+            a.add_entry(e).unwrap();
+        }
+        std::fs::write(sbx.path("many.pna"), a.finalize().unwrap()).unwrap();
+        for (k, args) in [vec!["--quiet", "extract", "many.pna", "--out-dir", "o"], vec!["list", "many.pna"]].iter().enumerate() {
+            let r = run_pna(&sbx, &sbx.root, args, if k == 0 { None } else { None }, 60, &[]);
+            ctx.oracle_eval();
+            ctx.count("archive:many-entries");
+            let attrs = json!({"entries":count,"argv":args,"run":r.brief()});
+            if r.crashed() || r.hung() { ctx.violation("C07", "a command panicked, was killed by a signal or did not end on an archive with many entries", attrs); continue; }
+            let got = if k == 0 { std::fs::read_dir(sbx.path("o/m")).map(|d| d.count()).unwrap_or(0) } else { String::from_utf8_lossy(&r.stdout).lines().count() };
+            if !r.ok() || got != count { ctx.violation("C17", "list / extract of an archive with many entries does not give every entry", json!({"entries":count,"got":got,"argv":args,"run":r.brief()})); }
+        }
+        ctx.case_free();
+    }
     let n = if ctx.thorough { 400 } else { 30 };
     for case in 0..n {
         let sbx = Sbx::new("hostile", case);
